@@ -2,7 +2,7 @@
 # tools/runall.sh [tier]: every registered check once, one summary line each
 tier=${1:-quick}
 cd /verif
-for p in C01 C02 C03 C04 C05 C06 C07 C08 C09 C10 C11 C12 C13 C14 C16 C17 C18 C19; do
+for p in C01 C02 C03 C04 C05 C06 C07 C08 C09 C10 C11 C12 C13 C14 C15 C16 C17 C18 C19; do
   ./check $p --tier $tier > /tmp/runall-$p.log 2>&1; code=$?
   echo "$p exit=$code viol=$(grep -c '^VIOLATION' /tmp/runall-$p.log) inconcl=$(grep -c '^INCONCLUSIVE' /tmp/runall-$p.log) :: $(tail -1 /tmp/runall-$p.log | cut -c1-150)"
 done
